@@ -12,6 +12,7 @@ pub mod macenum;
 pub mod monitors;
 pub mod nodemc;
 pub mod nodevel;
+pub mod payflow;
 pub mod props;
 pub mod scenario;
 pub mod secretstore;
